@@ -448,7 +448,12 @@ impl CaseInput for PollCase {
                     }
                     sleeps_since_req = 0;
                     match (deadline, last_time) {
-                        (Some(dl), Some(t)) if t > dl => oracle.push(("C08:deadline".into(), format!("poll sent at clock {t} > deadline {dl}"))),
+                        (Some(dl), Some(t)) if t > dl => {
+                            oracle.push(("C08:deadline".into(), format!("poll sent at clock {t} > deadline {dl}")));
+                            if self.timeout.is_none() {
+                                oracle.push(("C19:lifetime".into(), format!("poll sent at clock {t}, after start + expires_in ({} s) = {dl}", self.expires_in)));
+                            }
+                        }
                         (None, _) => oracle.push(("C08:unrepresentable".into(), "request sent although the timeout is unrepresentable".into())),
                         _ => {}
                     }
@@ -495,7 +500,12 @@ impl CaseInput for PollCase {
                         }
                     } else if ev == "rexpired" {
                         match (deadline, last_time) {
-                            (Some(dl), Some(t)) if t <= dl => oracle.push(("C08:early-giveup".into(), format!("gave up at clock {t} <= deadline {dl}"))),
+                            (Some(dl), Some(t)) if t <= dl => {
+                                oracle.push(("C08:early-giveup".into(), format!("gave up at clock {t} <= deadline {dl}")));
+                                if self.timeout.is_none() {
+                                    oracle.push(("C19:lifetime".into(), format!("poll gave up at clock {t} although start + expires_in ({} s) = {dl} had not passed", self.expires_in)));
+                                }
+                            }
                             _ => {}
                         }
                     } else if ev == "rother" {
